@@ -2,6 +2,7 @@ package world
 
 import (
 	"bytes"
+	"encoding/base64"
 	"crypto/x509"
 	"encoding/json"
 	"errors"
@@ -277,3 +278,42 @@ func BlobDesc(alg digest.Algorithm, content []byte, mediaType string) ocispec.De
 }
 
 var _ notation.Signer = (*signer.GenericSigner)(nil)
+
+// RogueJWS hand-assembles a JWS envelope the way notation-core-go lays it out,
+// without its sign-time validations: a party that holds a key can put any
+// signing time (or expiry) into the protected header, e.g. one outside a
+// certificate's validity, which notation-core-go itself refuses to emit.
+func RogueJWS(c *Chain, payload []byte, scheme signature.SigningScheme, signingTime, expiry time.Time) ([]byte, error) {
+	kind := KindOf(c.Leaf().Key)
+	alg := map[KeyKind]string{EC256: "ES256", EC384: "ES384", EC521: "ES512", RSA2048: "PS256", RSA3072: "PS384", RSA4096: "PS512"}[kind]
+	protected := map[string]any{"alg": alg, "cty": PayloadType, "io.cncf.notary.signingScheme": string(scheme)}
+	crit := []string{"io.cncf.notary.signingScheme"}
+	ts := signingTime.UTC().Truncate(time.Second).Format(time.RFC3339)
+	if scheme == signature.SigningSchemeX509SigningAuthority {
+		protected["io.cncf.notary.authenticSigningTime"] = ts
+		crit = append(crit, "io.cncf.notary.authenticSigningTime")
+	} else {
+		protected["io.cncf.notary.signingTime"] = ts
+	}
+	if !expiry.IsZero() {
+		protected["io.cncf.notary.expiry"] = expiry.UTC().Truncate(time.Second).Format(time.RFC3339)
+		crit = append(crit, "io.cncf.notary.expiry")
+	}
+	protected["crit"] = crit
+	pb, err := json.Marshal(protected)
+	if err != nil {
+		return nil, err
+	}
+	enc := base64.RawURLEncoding
+	p64, b64 := enc.EncodeToString(pb), enc.EncodeToString(payload)
+	sig, err := RawSign(c.Leaf().Key, []byte(p64+"."+b64))
+	if err != nil {
+		return nil, err
+	}
+	var chain [][]byte
+	for _, x := range c.X509() {
+		chain = append(chain, x.Raw)
+	}
+	return json.Marshal(map[string]any{"payload": b64, "protected": p64, "signature": enc.EncodeToString(sig),
+		"header": map[string]any{"x5c": chain, "io.cncf.notary.signingAgent": "rogue/1"}})
+}
